@@ -34,8 +34,9 @@ impl TryFrom<String> for BuildpackVersion {
         match value
             .split('.')
             .map(|s| {
-                // The spec forbids redundant leading zeros.
-                if s.starts_with('0') && s != "0" {
+                // The spec forbids redundant leading zeros. A sign is not permitted either,
+                // however `u64::from_str` accepts a leading `+`.
+                if (s.starts_with('0') && s != "0") || s.starts_with('+') {
                     None
                 } else {
                     s.parse().ok()
